@@ -85,6 +85,7 @@ def run_e1_unit(prop, unit, tier, out, known, workdir, tus):
         out.undecided.append('%s: entry %s not found in %s' % (uname, entry, unit['tu']))
         return
     out.functions.update(tu.cocls_functions)
+    out.assumptions.update(unit.get('assumptions', ()))      # unit-specific environment models (e.g. C11: cooperative thread model)
     urec = {'name': uname, 'engine': 'E1 ir2c+cbmc', 'tu': unit['tu'], 'entry': entry, 'unwind': unit['unwind'],
             'skeleton_space': unit.get('space', ''), 'vectors': len(unit['vectors']), 'ir_lines': tu.ir_lines,
             'timing': dict(tu.timing), 'data_inputs': unit.get('data', ''), 'bounds': unit.get('bounds', ''),
